@@ -171,23 +171,27 @@ Proof. exact tmerge_components. Qed.
 (* whatever fn is: a successful call returns xk from the search, with every component of
    fn(constant(xk)) scaled by -1/(dF/dx), dF/dx <> 0 *)
 Theorem C20_implicit_components :
-  forall (F : KTypes.ureal R -> res (Kernel.operand RNum)) fixed s lo hi eps s' r,
-    implicit_gen RNum F fixed s lo hi eps = Ok (s', r) ->
+  forall (F : KTypes.ureal R -> res (Kernel.operand RNum)) s lo hi eps s' r,
+    implicit_real RNum F s lo hi eps = Ok (s', r) ->
     exists xk d oy,
-      nr_get_root RNum F fixed s lo hi eps = Ok (s', xk, d) /\
+      nr_get_root RNum F s lo hi eps = Ok (s', xk, d) /\
       F (mk_constant RNum xk None) = Ok (@OpdU RNum oy) /\ d <> 0 /\
       ux r = xk /\ scaled_by d oy r.
-Proof. exact implicit_gen_inv. Qed.
+Proof. exact implicit_real_inv. Qed.
 
-(* the derivative is the sensitivity of fn to a fresh elementary probe placed at the returned point
-   -- unless (code as it stands) the root was found at a bracket end *)
-Theorem C20_implicit_derivative_at_solution_partial :
-  forall (F : KTypes.ureal R -> res (Kernel.operand RNum)) fixed s lo hi eps s' xk d,
-    nr_get_root RNum F fixed s lo hi eps = Ok (s', xk, d) ->
-    probed F xk d \/
-    (fixed = false /\ exists xe s0 s1 x o, (xe = lo \/ xe = hi) /\ probe RNum F s0 xe = Ok (s1, x, @OpdU RNum o) /\
-                      Rabs (ux o) < eps /\ xk = ux o /\ sensitivity RNum s1 o x = Ok d).
+(* the derivative is the sensitivity of fn to a fresh elementary probe placed AT the returned point, for every
+   successful search (loop invariant of the Newton / bisection iteration; with finding C20-implicit-end repaired it
+   holds at the bracket ends too -- this replaces the former C20_implicit_derivative_at_solution_partial) *)
+Theorem C20_implicit_derivative_at_solution :
+  forall (F : KTypes.ureal R -> res (Kernel.operand RNum)) s lo hi eps s' xk d,
+    nr_get_root RNum F s lo hi eps = Ok (s', xk, d) -> probed F xk d.
 Proof. exact nr_get_root_probed. Qed.
+
+Theorem C20_implicit_solution :
+  forall (F : KTypes.ureal R -> res (Kernel.operand RNum)) s lo hi eps s' r,
+    implicit_real RNum F s lo hi eps = Ok (s', r) ->
+    exists d oy, probed F (ux r) d /\ F (mk_constant RNum (ux r) None) = Ok (@OpdU RNum oy) /\ d <> 0 /\ scaled_by d oy r.
+Proof. exact implicit_real_probed. Qed.
 
 (* in terms of partial derivatives (Den = the denotation relation of the chain-rule theorem C02) *)
 Theorem C20_implicit_components_are_partials :
@@ -207,52 +211,37 @@ Proof. exact implicit_derivative_partial. Qed.
 
 (* RuntimeError: empty range; no sign change between the bracket ends *)
 Theorem C20_implicit_empty_range_raises :
-  forall (F : KTypes.ureal R -> res (Kernel.operand RNum)) fixed s lo hi eps,
-    hi <= lo -> implicit_gen RNum F fixed s lo hi eps = Err RuntimeError.
+  forall (F : KTypes.ureal R -> res (Kernel.operand RNum)) s lo hi eps,
+    hi <= lo -> implicit_real RNum F s lo hi eps = Err RuntimeError.
 Proof. exact empty_range_raises. Qed.
 
 Theorem C20_implicit_no_sign_change_raises :
-  forall (F : KTypes.ureal R -> res (Kernel.operand RNum)) fixed s lo hi eps s1 x1 o1 s2 x2 r2,
+  forall (F : KTypes.ureal R -> res (Kernel.operand RNum)) s lo hi eps s1 x1 o1 s2 x2 r2,
     lo < hi ->
     probe RNum F s lo = Ok (s1, x1, @OpdU RNum o1) -> probe RNum F s1 hi = Ok (s2, x2, r2) ->
     eps <= Rabs (ux o1) -> eps <= Rabs (val_of RNum r2) -> 0 <= ux o1 * val_of RNum r2 ->
-    implicit_gen RNum F fixed s lo hi eps = Err RuntimeError.
+    implicit_real RNum F s lo hi eps = Err RuntimeError.
 Proof. exact no_sign_change_raises. Qed.
 
-(* the full statement "returns x with fn(x) = 0" is FALSE of the faithful model when the root is at a
-   bracket end: fn = lambda v: v - 1.0 on [1, 3] has the root 1 = x_min, the call succeeds and
-   returns 0 (= fn(x_min).x), and fn(0) = -1 (known finding C20-implicit-end) *)
-Theorem C20_implicit_end_refuted :
-  exists (e : Kernel.expr RNum) (s : KTypes.state R) (lo hi eps : R) s' r,
-    let F := fn_of_expr RNum [] e in
-    lo < hi /\ 0 < eps /\
-    (exists y0, F (mk_constant RNum lo None) = Ok (@OpdU RNum y0) /\ ux y0 = 0) /\
-    implicit_real RNum F s lo hi eps = Ok (s', r) /\
-    ux r <> lo /\
-    (exists y, F (mk_constant RNum (ux r) None) = Ok (@OpdU RNum y) /\ ux y <> 0).
-Proof. exact implicit_end_refuted. Qed.
-
-(* with the two-name repair (proposed_fixes/C20_1.diff: return x_min / x_max) a root found at either
-   end is returned as such, for every fn *)
-Theorem C20_implicit_end_repaired :
-  forall (F : KTypes.ureal R -> res (Kernel.operand RNum)) s lo hi eps s1 x1 o1 d,
+(* a root of fn at (within epsilon of) a bracket end is what implicit returns, with the components of fn there
+   scaled by -1/(dF/dx) taken there -- for every fn.  (Finding C20-implicit-end, fixed: the code used to return the
+   FUNCTION value fl / fu; the theorem C20_implicit_end_refuted it supported is replaced by these.) *)
+Theorem C20_implicit_root_at_lower_end :
+  forall (F : KTypes.ureal R -> res (Kernel.operand RNum)) s lo hi eps s1 x1 o1 d oy,
     lo < hi -> probe RNum F s lo = Ok (s1, x1, @OpdU RNum o1) -> Rabs (ux o1) < eps ->
-    sensitivity RNum s1 o1 x1 = Ok d ->
-    nr_get_root RNum F true s lo hi eps = Ok (s1, lo, d) /\
-    nr_get_root RNum F false s lo hi eps = Ok (s1, ux o1, d).
-Proof.
-  intros F s lo hi eps s1 x1 o1 d H1 H2 H3 H4. split.
-  - exact (root_at_lower_end F true s lo hi eps s1 x1 o1 d H1 H2 H3 H4).
-  - exact (root_at_lower_end F false s lo hi eps s1 x1 o1 d H1 H2 H3 H4).
-Qed.
+    sensitivity RNum s1 o1 x1 = Ok d -> d <> 0 ->
+    F (mk_constant RNum lo None) = Ok (@OpdU RNum oy) ->
+    exists r, implicit_real RNum F s lo hi eps = Ok (s1, r) /\ ux r = lo /\ scaled_by d oy r.
+Proof. exact implicit_root_at_lower_end. Qed.
 
-Theorem C20_implicit_upper_end_repaired :
-  forall (F : KTypes.ureal R -> res (Kernel.operand RNum)) fixed s lo hi eps s1 x1 o1 s2 x2 o2 d,
+Theorem C20_implicit_root_at_upper_end :
+  forall (F : KTypes.ureal R -> res (Kernel.operand RNum)) s lo hi eps s1 x1 o1 s2 x2 o2 d oy,
     lo < hi -> probe RNum F s lo = Ok (s1, x1, @OpdU RNum o1) -> eps <= Rabs (ux o1) ->
     probe RNum F s1 hi = Ok (s2, x2, @OpdU RNum o2) -> Rabs (ux o2) < eps ->
-    sensitivity RNum s2 o2 x2 = Ok d ->
-    nr_get_root RNum F fixed s lo hi eps = Ok (s2, (if fixed then hi else ux o2), d).
-Proof. exact root_at_upper_end. Qed.
+    sensitivity RNum s2 o2 x2 = Ok d -> d <> 0 ->
+    F (mk_constant RNum hi None) = Ok (@OpdU RNum oy) ->
+    exists r, implicit_real RNum F s lo hi eps = Ok (s2, r) /\ ux r = hi /\ scaled_by d oy r.
+Proof. exact implicit_root_at_upper_end. Qed.
 
 (* ---------------- non-vacuity ---------------- *)
 (* the documented example mul2(ureal(0,1), ureal(0,1)): all hypotheses of C20_mul2_real_variance
@@ -279,11 +268,12 @@ Proof.
     + rewrite Hv. f_equal. unfold second_order_variance, sq. simpl. unfold sq. lra.
 Qed.
 
-(* the hypotheses of the bracket-end theorems are met by fn = lambda v: v - 1.0 on [1,3]; with the
-   repair the call returns the root 1 *)
+(* the hypotheses of the bracket-end theorems are met by fn = lambda v: v - 1.0 on [1,3] (the former counterexample):
+   the call returns the root 1, and fn vanishes there *)
 Example C20_implicit_nonvacuous :
-  exists s' r, implicit_gen RNum Fm1 true st0 1 3 (/ 1000) = Ok (s', r) /\ ux r = 1.
-Proof. exact implicit_end_repaired_witness. Qed.
+  exists s' r, implicit_real RNum Fm1 st0 1 3 (/ 1000) = Ok (s', r) /\ ux r = 1 /\
+    (exists y, Fm1 (mk_constant RNum (ux r) None) = Ok (@OpdU RNum y) /\ ux y = 0).
+Proof. exact implicit_end_witness. Qed.
 
 (* fmod for a negative x and a negative modulus: fmod(-7, -2) = -1 with the components of x *)
 Example C20_fmod_nonvacuous :
@@ -304,5 +294,5 @@ Definition C20_mul2_theorems := (C20_mul2_real_variance, C20_reads_fresh, C20_re
 Print Assumptions C20_mul2_theorems.
 Definition C20_mod_merge_theorems := (C20_mod, C20_fmod, C20_merge_raises, C20_merge, C20_merge_components, C20_fmod_nonvacuous).
 Print Assumptions C20_mod_merge_theorems.
-Definition C20_implicit_theorems := (C20_implicit_components, C20_implicit_derivative_at_solution_partial, C20_implicit_components_are_partials, C20_implicit_derivative_is_partial, C20_implicit_empty_range_raises, C20_implicit_no_sign_change_raises, C20_implicit_end_refuted, C20_implicit_end_repaired, C20_implicit_upper_end_repaired, C20_implicit_nonvacuous).
+Definition C20_implicit_theorems := (C20_implicit_components, C20_implicit_derivative_at_solution, C20_implicit_solution, C20_implicit_components_are_partials, C20_implicit_derivative_is_partial, C20_implicit_empty_range_raises, C20_implicit_no_sign_change_raises, C20_implicit_root_at_lower_end, C20_implicit_root_at_upper_end, C20_implicit_nonvacuous).
 Print Assumptions C20_implicit_theorems.
